@@ -234,6 +234,7 @@ class Interp:
         self.loop_hook = None
         self.max_call_depth = 200
         self.external_handler = None
+        self.noalias_fatal = True   # False: a caller passing the written object to a __restrict parameter is recorded in .events only
         if not program.demangled:
             program.demangle_all()
         self._icache = {}
@@ -1420,7 +1421,12 @@ class Interp:
                     continue
                 n_j = prm2.attrs.get("dereferenceable", 1)
                 if is_conc(a.off) and is_conc(b.off) and a.off < b.off + n_j and b.off < a.off + n_i:
-                    raise MemViolation("noalias", "argument %d of %s is __restrict but overlaps argument %d" % (i, d.split("(")[0], j))
+                    msg = "argument %d of %s is __restrict but overlaps argument %d" % (i, d.split("(")[0], j)
+                    if not self.noalias_fatal:
+                        if ("noalias", msg) not in self.events:
+                            self.events.append(("noalias", msg))
+                        continue
+                    raise MemViolation("noalias", msg)
 
     # ------------------------------------------------------------------ driver
     def explore(self, run_once, max_paths=4096):
